@@ -131,7 +131,7 @@ reg(
           "its stand-alone sequential result; afterwards the parser must still work sequentially. distinct = distinct round by content hash; "
           "non-trivial = at least one call interval overlapped a call of another thread (from the recorded call/return stamps)."),
     profiles={"quick": ["checked"], "thorough": ["checked"]},
-    floor={"quick": 200, "thorough": 10000},
+    floor={"quick": 800, "thorough": 10000},
     hang_is_violation=True,
     assumptions=[
         "schedules are sampled by the OS scheduler, thread-count sweep, start skew and injected delays; no enumeration of interleavings is claimed",
